@@ -93,8 +93,13 @@ def check(chk):
               'VectorType: variable-width element sizes are unsigned vints', 'vector element sizes are not unsigned vints on both sides')
     ss, _ = C.find_method(vc, 'serial_size')
     rets = [n for n in body_walk(ss) if isinstance(n, ast.Return)]
-    goodss = len(rets) == 1 and isinstance(rets[0].value, ast.IfExp) and normalise_atom(rets[0].value.test) == ('serialized_size is None', True) \
-        and src(rets[0].value.orelse) == 'None'
+    goodss = False
+    if len(rets) == 1:
+        try:
+            fo = C.folder
+            goodss = fo.eval(rets[0].value, env={'serialized_size': None, 'cls': {'vector_size': 3}}) is None and fo.eval(rets[0].value, env={'serialized_size': 4, 'cls': {'vector_size': 3}}) == 12
+        except Exception:
+            goodss = False
     chk.judge(goodss, 'C02.coll', ss, 'VectorType.serial_size is None when the element type has no fixed size',
               'vector serial_size no longer propagates "no fixed size" (nested vectors would be laid out as fixed width)')
     # fixed sizes declared by serial_size() equal the struct sizes
